@@ -290,6 +290,10 @@ func init() {
 		addField("B", "a"+m.suffix, "a", "A", m.mode, m.par)
 	}
 	addField("B", "qEx", "q", "sc", "external", 0)
+	// batch resolvers without a result map (error only): every source resolves to `true`
+	addField("B", "okBa", "ok", "tr", "batch", 0)
+	addField("B", "okBf", "ok", "tr", "fallback", 0)
+	addField("B", "okBp", "ok", "tr", "batch", 2)
 	addField("B", "asEx", "as", "As", "external", 0)
 	addField("B", "asBa", "as", "As", "batch", 0)
 	addField("B", "asP2", "as", "As", "external", 2)
@@ -400,6 +404,12 @@ func registerField(obj *schemabuilder.Object, f *xField) {
 		many := func(ctx context.Context, in map[batch.Index]*XB) (map[batch.Index]int64, error) {
 			out := map[batch.Index]int64{}
 			return out, batchEach(in, func(i batch.Index, s interface{}) error { v, e := asScalar(get(nodeOf(s), src)); out[i] = v; return e })
+		}
+		regOne(obj, f, batchy, one, many, opts)
+	case "B:tr":
+		one := func(ctx context.Context, b *XB) error { _, e := asScalar(get(b.N, src)); return e }
+		many := func(ctx context.Context, in map[batch.Index]*XB) error {
+			return batchEach(in, func(i batch.Index, s interface{}) error { _, e := asScalar(get(nodeOf(s), src)); return e })
 		}
 		regOne(obj, f, batchy, one, many, opts)
 	case "B:A":
@@ -547,7 +557,7 @@ type xRootKey struct{}
 
 func xTyEnc(ty string) interface{} {
 	switch ty {
-	case "sc":
+	case "sc", "tr":
 		return map[string]interface{}{"nn": "scalar"}
 	case "ints":
 		return map[string]interface{}{"nn": map[string]interface{}{"list": map[string]interface{}{"nn": "scalar"}}}
@@ -654,6 +664,8 @@ func (g *xGen) val(ty string, depth int) *xVal {
 	switch ty {
 	case "sc":
 		return &xVal{Kind: "sc", Sc: int64(g.r.Intn(9))}
+	case "tr":
+		return &xVal{Kind: "sc", Sc: 1}
 	case "ints":
 		v := &xVal{Kind: "list"}
 		for i := g.r.Intn(4); i > 0; i-- {
@@ -828,7 +840,7 @@ func (g *xQGen) selSet(typ string, depth int) *xSelSet {
 		// leaves only
 		var leaves []*xField
 		for _, f := range fields {
-			if f.Ty == "sc" || f.Ty == "ints" {
+			if f.Ty == "sc" || f.Ty == "ints" || f.Ty == "tr" {
 				leaves = append(leaves, f)
 			}
 		}
@@ -1053,6 +1065,11 @@ func (q *xQuery) jEnc(v interface{}) interface{} {
 			return map[string]interface{}{"s": id}
 		}
 		return map[string]interface{}{"str": v}
+	case bool:
+		if v {
+			return map[string]interface{}{"s": 1}
+		}
+		return map[string]interface{}{"s": 0}
 	case int64:
 		return map[string]interface{}{"s": v}
 	case int:
